@@ -474,6 +474,17 @@ impl McnkChunk {
     }
 }
 
+/// Read `size` bytes of subchunk data. The size comes straight from the file, so the
+/// data is read through a length-limited adapter instead of being allocated up front.
+fn read_sized<R: Read>(reader: &mut R, size: u32) -> BinResult<Vec<u8>> {
+    let mut data = Vec::new();
+    reader.by_ref().take(u64::from(size)).read_to_end(&mut data)?;
+    if data.len() != size as usize {
+        return Err(std::io::Error::from(std::io::ErrorKind::UnexpectedEof).into());
+    }
+    Ok(data)
+}
+
 /// Read a subchunk from within an MCNK chunk.
 ///
 /// Seeks to the specified offset (relative to MCNK chunk start), reads the
@@ -510,10 +521,7 @@ fn read_subchunk<R: Read + Seek>(
     })?;
 
     // Read subchunk data
-    let mut data = vec![0u8; subchunk_header.size as usize];
-    reader.read_exact(&mut data)?;
-
-    Ok(data)
+    read_sized(reader, subchunk_header.size)
 }
 
 /// Read a subchunk with a known expected size.
@@ -580,10 +588,7 @@ fn read_subchunk_with_size<R: Read + Seek>(
     }
 
     // Read subchunk data using the expected size
-    let mut data = vec![0u8; expected_size as usize];
-    reader.read_exact(&mut data)?;
-
-    Ok(data)
+    read_sized(reader, expected_size)
 }
 
 /// Scan for a subchunk by chunk ID (used for MoP 5.3+ when offsets aren't in header).
@@ -621,9 +626,7 @@ fn scan_for_subchunk<R: Read + Seek>(
 
         if subchunk_header.id == target_id {
             // Found it! Read the data
-            let mut data = vec![0u8; subchunk_header.size as usize];
-            reader.read_exact(&mut data)?;
-            return Ok(data);
+            return read_sized(reader, subchunk_header.size);
         }
 
         // Move to next potential chunk (header + data)
